@@ -102,7 +102,8 @@ def f64s(x):
 
 # ---------------------------------------------------------------------------------------------
 def job(j, seed):
-    N, chunk, angle_unit, mode = j
+    N, chunk, angle_unit, mode, *rest = j
+    hshape = [float(x) for x in (rest[0] if rest else (2, 3))]
     import numpy as np
     from symex import core as C
     from symex.core import R
@@ -115,8 +116,8 @@ def job(j, seed):
     sc, build, models, sqw, rw = _load()
     fresh_run()
     obs, cands = [], []
-    tag = f'N={N},chunk={chunk},angles={angle_unit},{mode}'
-    case = {'N': N, 'chunk': chunk, 'angle_unit': angle_unit, 'mode': mode}
+    tag = f'N={N},chunk={chunk},angles={angle_unit},{mode}' + ('' if hshape == [2.0, 3.0] else f',hist={[int(x) for x in hshape]}')
+    case = {'N': N, 'chunk': chunk, 'angle_unit': angle_unit, 'mode': mode, 'hist_shape': hshape}
     n_runs = 2
     C.CTX.fork_timeout_ms = 3000
     # ---- symbolic pixel rows with symbolic unit scales (ascending within a row: bounds the min/max forks)
@@ -173,7 +174,7 @@ def job(j, seed):
             u=sc.vector([0.0, 1.0, 0.0]), v=sc.vector([1.0, 1.0, 0.0]), omega=Variable(dims=(), values=ang['omega'], unit=au, dtype='float64'),
             dpsi=Variable(dims=(), values=ang['dpsi'], unit=au, dtype='float64'), gl=Variable(dims=(), values=ang['gl'], unit=au, dtype='float64'),
             gs=Variable(dims=(), values=ang['gs'], unit=au, dtype='float64'), filename=f'run{i}', filepath='/p'))
-    _e, inst, sample, dnd = make_inputs(sc, models, n_runs, 'title', 'nm', [2.0, 3.0])
+    _e, inst, sample, dnd = make_inputs(sc, models, n_runs, 'title', 'nm', hshape)
     alatt = [C.sym_var(f'alatt_{k}', sign='+') for k in range(3)]
     uA = sym_unit('A', 'm')
     sample = models.SqwIXSample(name='smp', lattice_spacing=Variable(_arr=arr(alatt, None), dims=(), unit=uA, dtype=sc.DType.vector3),
@@ -332,11 +333,11 @@ def job(j, seed):
         nd = c.take('u32').value
         shp = [c.take('u32').value for _ in range(int(nd))]
         zs = [c.take('array') for _ in range(3)]
-        okh = C.B.const([float(x) for x in shp] == [2.0, 3.0] and [z.meta if z.meta else z.value.dtype for z in zs] == ['float64', 'float64', 'uint64']
+        okh = C.B.const([float(x) for x in shp] == hshape and [z.meta if z.meta else z.value.dtype for z in zs] == ['float64', 'float64', 'uint64']
                         and all(z.value.origin == ('zeros', tuple(shp)) for z in zs))
-        chk(f'{P}:zero histogram of the declared shape (values, errors f64; counts u64)', okh, p.pc, 'C13:histogram')
+        chk(f'{P}:zero histogram of the declared shape {[int(x) for x in hshape]} (values, errors f64; counts u64); written {[int(float(x)) for x in shp]}', okh, p.pc, 'C13:histogram')
         dm = dec[("data", "metadata")][0]
-        chk(f'{P}:histogram metadata nbins', C.B.const([float(x) for x in f64s(dm['axes'][0]['nbins_all_dims'])] == [2.0, 3.0]), p.pc, 'C13:histogram')
+        chk(f'{P}:histogram metadata nbins', C.B.const([float(x) for x in f64s(dm['axes'][0]['nbins_all_dims'])] == hshape), p.pc, 'C13:histogram')
         # ---------------- the package's own reader: same numbers, and units of the same dimension
         C.CTX.exploring = True
         C.CTX.reset_path(p.decisions)
@@ -403,7 +404,7 @@ def run(chk):
                                      models._angle_value, models._serialize_multi_unit_array, ir._serialize_field, rw.write_object_array, rw.read_object_array,
                                      sqw._parse_ix_sample_0_0, sqw._parse_line_proj_7_0, sqw._parse_single_ix_experiment_3_0, sqw._parse_pix_metadata_1_0,
                                      sqw._read_pix_block, sqw._read_dnd_block])
-    jobs = [(3, 2, 'deg', 'direct'), (2, 5, 'rad', 'indirect'), (0, 1, 'rad', 'direct'), (1, 1, 'deg', 'indirect')]
+    jobs = [(3, 2, 'deg', 'direct'), (2, 5, 'rad', 'indirect'), (0, 1, 'rad', 'direct'), (1, 1, 'deg', 'indirect'), (1, 1, 'rad', 'direct', (3, 1, 2, 4)), (0, 1, 'rad', 'direct', (1, 1))]
     if chk.tier == 'thorough':
         jobs += [(3, 1, 'rad', 'direct'), (3, 3, 'deg', 'indirect'), (2, 1, 'deg', 'direct'), (3, 4, 'rad', 'indirect')]
     run_jobs(chk, job, jobs)
@@ -439,7 +440,8 @@ def replay_real(case):
                               sc.array(dims=['detector', 'energy_transfer'], values=[[3.0, 4.0], [5.0, 6.0]], unit='ueV'), psi=sc.scalar(12.0 + i, unit=au),
                               u=sc.vector([0.0, 1.0, 0.0]), v=sc.vector([1.0, 1.0, 0.0]), omega=sc.scalar(1.4, unit=au), dpsi=sc.scalar(46.0, unit=au),
                               gl=sc.scalar(3.0, unit=au), gs=sc.scalar(-0.5, unit=au), filename=f'run{i}', filepath='/p') for i in range(n_runs)]
-    _e, inst, sample, dnd = c12.make_inputs(sc, models, n_runs, 'title', 'nm', [2.0, 3.0])
+    hshape = case.get('hist_shape', [2.0, 3.0])
+    _e, inst, sample, dnd = c12.make_inputs(sc, models, n_runs, 'title', 'nm', hshape)
     sample = S.SqwIXSample(name='smp', lattice_spacing=sc.vector([0.286, 0.3, 0.4], unit='nm'), lattice_angle=sc.vector([90.0, 90.0, 90.0], unit='deg'))
     units_in = {'u1': '1/nm', 'u2': '1/angstrom', 'u3': '1/m', 'u4': 'ueV', 'irun': None, 'idet': None, 'ien': None}
     pix = sc.DataArray(sc.array(dims=['pixel'], values=rng.random(N), variances=rng.random(N), unit='count'),
@@ -458,8 +460,14 @@ def replay_real(case):
                 ex = s.read_data_block(('experiment_info', 'expdata'))
                 sm = s.read_data_block(('experiment_info', 'samples'))
                 dm = s.read_data_block(('data', 'metadata'))
+                nd = s.read_data_block(('data', 'nd_data'))
         if wl:
             bad.append(f'reader warning: {wl[0].message}')
+        want_shape = tuple(int(x) for x in reversed(hshape))
+        if [tuple(a.shape) for a in nd] != [want_shape] * 3 or any(np.any(a != 0) for a in nd):
+            bad.append(f'histogram arrays read back with shapes {[tuple(a.shape) for a in nd]}, declared bins {[int(x) for x in hshape]} (arrays are stored in reverse axis order: {want_shape})')
+        if [float(x) for x in dm.axes.n_bins_all_dims.values] != [float(x) for x in hshape]:
+            bad.append(f'histogram metadata nbins {dm.axes.n_bins_all_dims.values}')
         names = list(c12.PIX_UNITS)
         if px.shape != (N, 9):
             bad.append(f'pixel block shape {px.shape} != {(N, 9)}')
